@@ -78,3 +78,76 @@ def lem_ack(d: L, r: L) -> B:
 
 def key_const(s: Py) -> B:
     return isinstance(s, ast.Constant) and (isinstance(s.value, str) or isinstance(s.value, int))
+
+
+# ---- lists of positions (type_transformer.visit_Attribute collects the positions of the keys
+# ---- that match and uses the last one)
+def idx_below(l: L, n: I) -> B:
+    """every element of l is an int i with 0 <= i < n"""
+    if is_empty(l):
+        return True
+    if not isinstance(head(l), int):
+        return False
+    if head(l) < 0 or head(l) >= n:
+        return False
+    return idx_below(tail(l), n)
+
+
+def lem_ib_mono(l: L, n: I) -> B:
+    return implies(idx_below(l, n), idx_below(l, n + 1))
+
+
+def lem_ib_snoc(l: L, x: Py, n: I) -> B:
+    return idx_below(concat(l, [x]), n) == (idx_below(l, n) and isinstance(x, int) and 0 <= x and x < n)
+
+
+def last_of(l: L) -> Py:
+    """the last element of a non-empty list (recursive form of l[-1])"""
+    if is_empty(tail(l)):
+        return head(l)
+    return last_of(tail(l))
+
+
+def lem_lo_snoc(l: L, x: Py) -> B:
+    return same(last_of(concat(l, [x])), x)
+
+
+def lem_lo_nth(l: L) -> B:
+    return implies(not is_empty(l), same(nth(l, len(l) - 1), last_of(l)))
+
+
+def lem_ib_lo(l: L, n: I) -> B:
+    return implies(idx_below(l, n) and not is_empty(l),
+                   isinstance(last_of(l), int) and 0 <= last_of(l) and last_of(l) < n)
+
+
+# ---- every dictionary display in a tree has as many keys as values (what Python's parser
+# ---- builds; ast.Dict itself does not enforce it) — part of the type follower's hypothesis
+def dok_local(n: Py) -> B:
+    if isinstance(n, ast.Dict):
+        return len(n.keys) == len(n.values)
+    return True
+
+
+def dok(n: Py) -> B:
+    if not is_node(n):
+        return True
+    return dok_local(n) and all_children(dok, n)
+
+
+def is_pair(x: Py) -> B:
+    return isinstance(x, tuple) and len(x) == 2
+
+
+def all_pairs(l: L) -> B:
+    if is_empty(l):
+        return True
+    return is_pair(head(l)) and all_pairs(tail(l))
+
+
+def lem_ap_cat(d: L, r: L) -> B:
+    return implies(all_pairs(concat(d, r)), all_pairs(d) and all_pairs(r))
+
+
+def lem_ap_snoc(l: L, x: Py) -> B:
+    return implies(all_pairs(l) and is_pair(x), all_pairs(concat(l, [x])))
